@@ -58,6 +58,7 @@ pub fn run(tier: Tier) -> i32 {
                 let n = e.expect.len() as u64;
                 for (hk, opts, file) in [
                     ("header", Opts::default(), enc::lzma_file(lc, lp, pb, 4096, Some(n), &e.payload)),
+                    ("header-ignored", Opts { size: SizeOpt::HeaderProvided(Some(n)), ..Opts::default() }, enc::lzma_file(lc, lp, pb, 4096, Some(n + 2), &e.payload)),
                     ("provided", Opts { size: SizeOpt::Provided(Some(n)), ..Opts::default() }, {
                         let mut f = enc::lzma_header(lc, lp, pb, 4096, None);
                         f.truncate(5);
@@ -87,7 +88,7 @@ pub fn run(tier: Tier) -> i32 {
                     ctx.sample(json!({"scope": name, "program": prog_str(&prog), "payload_len": e.payload.len()}));
                 }
             });
-            ctx.scope_done(&name, cases.load(Ordering::Relaxed), t0, "2 header kinds x 5 trailers x reader kinds");
+            ctx.scope_done(&name, cases.load(Ordering::Relaxed), t0, "3 header kinds x 5 trailers x reader kinds");
         }
     }
     // ------------------------------------------------------------ LZMA2
